@@ -58,6 +58,7 @@ structure Sess where
   reports : List (String × Bool) := []   -- last availability report per endpoint since it was (re)added
   r : Int := 0
   d : Int := 0
+  lastList : List String := []    -- the most recently accepted endpoint list
   deriving Inhabited
 
 /-- the history record behind "known to be available": an endpoint counts as available exactly when the
@@ -67,6 +68,11 @@ def updReports (reports : List (String × Bool)) (pre : St) (op : Op) (out : Out
   | .setAvail e v => if (ids pre.eps).contains e then (reports.filter fun p => p.1 != e) ++ [(e, v)] else reports
   | .setEndpoints l => if out == .ok then reports.filter fun p => l.contains p.1 else reports
   | _ => reports
+
+/-- the endpoints are exactly the ids of the most recently accepted list, and each one's priority is
+    a position of its id in that list (an id listed twice: either position) -/
+def listMatches (l : List String) (post : St) : Bool :=
+  (post.eps.all fun e => l[e.prio]? == some e.id) && l.all fun id => (ids post.eps).contains id
 
 def statusMatchesReports (reports : List (String × Bool)) (post : St) : Bool :=
   post.eps.all fun e =>
@@ -122,8 +128,8 @@ def handle (sess : Sess) (rep : Report) (ln : Nat) (toks : List String) (obs : S
       | some s =>
         let mine := s!"ok ; {digest s}"
         if mine == obs then
-          ({ model := some s, impl := parseDigest r d dig, monitored := r ≥ 0 && d ≥ 0, r := r, d := d }, rep)
-        else ({ model := none, impl := parseDigest r d dig, monitored := r ≥ 0 && d ≥ 0, r := r, d := d },
+          ({ model := some s, impl := parseDigest r d dig, monitored := r ≥ 0 && d ≥ 0, r := r, d := d, lastList := decList (arg a "eps") }, rep)
+        else ({ model := none, impl := parseDigest r d dig, monitored := r ≥ 0 && d ≥ 0, r := r, d := d, lastList := decList (arg a "eps") },
               { rep.msg s!"DIVERGE line={ln} model={mine} impl={obs}" with diverged := rep.diverged + 1 })
     | _, _ => (sess, rep.msg s!"BAD line={ln}")
   | _ =>
@@ -141,15 +147,22 @@ def handle (sess : Sess) (rep : Report) (ln : Nat) (toks : List String) (obs : S
           let rep := if sess.monitored && !statusMatchesReports reports post then
               { rep.msg s!"MONITOR property=C13 clause=status_matches_reports line={ln}" with monitorFails := rep.monitorFails + 1 }
             else rep
+          let lastList := match op with | .setEndpoints l => if o == Out.ok then l else sess.lastList | _ => sess.lastList
+          let rep := if sess.monitored && !listMatches lastList post then
+              { rep.msg s!"MONITOR property=C13 clause=list_and_priorities line={ln}" with monitorFails := rep.monitorFails + 1 }
+            else rep
           (interesting rep pre op post, reports)
         | _, _, _ => (rep.msg s!"UNPARSED line={ln} obs={obs}", sess.reports)
       match sess.model with
       | some s =>
         let (s', out) := step s op
         let mine := s!"{outStr out} ; {digest s'}"
-        if mine == obs then ({ sess with model := some s', impl := implPost, reports := reports }, rep)
-        else ({ sess with model := none, impl := implPost, reports := reports },
+        let lastList := match op, parseOut outS with | .setEndpoints l, some Out.ok => l | _, _ => sess.lastList
+        if mine == obs then ({ sess with model := some s', impl := implPost, reports := reports, lastList := lastList }, rep)
+        else ({ sess with model := none, impl := implPost, reports := reports, lastList := lastList },
               { rep.msg s!"DIVERGE line={ln} model={mine} impl={obs}" with diverged := rep.diverged + 1 })
-      | none => ({ sess with impl := implPost, reports := reports }, rep.bump "me.monitored_after_divergence")
+      | none =>
+        let lastList := match op, parseOut outS with | .setEndpoints l, some Out.ok => l | _, _ => sess.lastList
+        ({ sess with impl := implPost, reports := reports, lastList := lastList }, rep.bump "me.monitored_after_divergence")
 
 end GcpVerif.Driver.MEDrv
